@@ -35,7 +35,10 @@ func WithNodeSpacing(spacing float64) Option {
 func WithNodeSize(sizes map[string]graph.Size) Option {
 	return func(o *options) {
 		o.params.NodeSizeFunc = func(n *ig.Node) {
-			n.Size = sizes[n.ID]
+			// nodes that are not in the map keep the size they have, e.g. the one set by WithNodeFixedSize
+			if size, ok := sizes[n.ID]; ok {
+				n.Size = size
+			}
 		}
 	}
 }
